@@ -269,8 +269,14 @@ def generate(rng, k, tier="quick"):
         elif r < 0.36 and len(pop) < (3 if heavy else 6):
             b, c = build_pair(base=rng.choice(pop)[0] if pop and rng.random() < 0.4 else None)
             ops.append({"op": "CHECK_NEAR", "a": b, "b": c})
-        elif r < 0.66 and pop:
+        elif r < 0.62 and pop:
             b, c, kk = rng.choice(pop)
+            ops.append({"op": "CHECK_NEAR", "a": b, "b": c})
+        elif r < 0.66 and pop:
+            # both members of a pair are moved, in place, under the current configuration
+            b, c, kk = rng.choice(pop)
+            v = tuple(F(rng.randint(-8, 8), 8) for _ in range(3))
+            ops.append({"op": "MOVE_PAIR", "a": b, "b": c, "v": X.ser(v)})
             ops.append({"op": "CHECK_NEAR", "a": b, "b": c})
         elif r < 0.76:
             ops.append({"op": "CHECK_FAR", "kind": rng.choice(["Point", "Vector"]), "c": X.ser(tuple(F(rng.randint(-24, 24), 8) for _ in range(3))), "coord": rng.randrange(3), "sign": rng.choice([-1, 1])})
@@ -351,6 +357,14 @@ def _pair_checks(A, B, sa, sb):
     out.append(("eq:B==A", call(lambda a, b: a == b, B, A), True))
     out.append(("hash:equal", call(lambda a, b: hash(a) == hash(b), A, B), True))
     out.append(("hash:set_merges", call(lambda a, b: len({a, b}) == 1, A, B), True))
+    if t in ("Line", "Plane"):
+        out.append(("parallel:f(A,B)", call(G.parallel, A, B), True))
+        out.append(("parallel:f(B,A)", call(G.parallel, B, A), True))
+        r = call(G.orthogonal, A, B)
+        out.append(("orthogonal:f(A,B)", True if r is False else (r if isinstance(r, Raised) else "T"), True))
+    if t == "ConvexPolygon":
+        out.append(("eqn:A.eq_with_normal(B)", call(lambda a, b: a.eq_with_normal(b), A, B), True))
+        out.append(("eqn:B.eq_with_normal(A)", call(lambda a, b: a.eq_with_normal(b), B, A), True))
     if t != "Vector":
         for nm, spec, other in (("in:ptsA_in_B", sa, B), ("in:ptsB_in_A", sb, A)):
             pts = def_points(spec)
@@ -393,6 +407,11 @@ def _battery(world, ids):
 def execute(history, opts=None):
     G = lib()
     ctx = Ctx()
+    ctx.fd = None
+    if opts and opts.get("float_digest"):
+        import hashlib
+
+        ctx.fd = hashlib.sha256()
     ops = history["ops"]
     G.set_eps()  # every history starts from the default configuration
     M = Model()
@@ -441,9 +460,38 @@ def execute(history, opts=None):
                 world[op["id"]] = {"obj": o, "spec": spec, "spec0": spec if base is None else world[base]["spec0"], "base": base, "k": kk, "built": M.key()}
                 ctx.count("build:%s" % spec["t"])
                 ctx.event(step, kind, tname(o))
+            elif kind == "MOVE_PAIR":
+                a, b = world.get(op["a"]), world.get(op["b"])
+                if a is None or b is None or a["spec"]["t"] == "Vector":
+                    ctx.event(step, kind, "noop")
+                    continue
+                v = X.vec(op["v"])
+                outs = []
+                for ent in (a, b):
+                    r = call(lambda o: o.move(G.Vector(*[float(x) for x in v])), ent["obj"])
+                    outs.append(disc(r))
+                    if isinstance(r, Raised):
+                        # a companion displaced by more than the *current* eps/1000 need not be a
+                        # valid object at this tolerance (e.g. no longer planar): only assertable pairs alarm
+                        kk = b["k"]
+                        if ent is a or (M.power and kk is not None and kk >= M.sig and admit(a["spec"], b["spec"], M.sig)[0]):
+                            ctx.vio(step, "J2", "move/%s" % ent["spec"]["t"], "move", "obj->%s" % disc(r), {"j": M.sig if M.power else None, "got": detail(r)})
+                        else:
+                            ctx.count("move_raised_unasserted")
+                        b["stale_pair"] = True
+                    ent["spec"] = X.translate(ent["spec"], v)
+                a["spec0"] = a["spec"]
+                # other companions of a moved base no longer pair with it: forget their link
+                for ent in world.values():
+                    if ent is not b and ent.get("base") == op["a"]:
+                        ent["stale_pair"] = True
+                a["moved"] = a.get("moved", 0) + 1
+                b["moved"] = b.get("moved", 0) + 1
+                ctx.count("pairs_moved")
+                ctx.event(step, kind, ",".join(outs))
             elif kind == "CHECK_NEAR":
                 a, b = world.get(op["a"]), world.get(op["b"])
-                if a is None or b is None:
+                if a is None or b is None or b.get("stale_pair"):
                     ctx.event(step, kind, "noop")
                     continue
                 _check_near(ctx, step, M, a, b)
@@ -452,17 +500,20 @@ def execute(history, opts=None):
             elif kind == "BATTERY":
                 ids = sorted(world)[:8]
                 res = _battery(world, ids)
+                if ctx.fd is not None:
+                    for _, r in res:
+                        ctx.fd.update(detail(r).encode())
                 ctx.count("battery_queries", len(res))
                 ctx.event(step, kind, ",".join(disc(r) for _, r in res))
             elif kind == "EXCURSION_BEGIN":
                 ids = sorted(world)[:8]
-                exc = (M.key(), (M.eps_float, M.sig, M.power), ids, _battery(world, ids))
+                exc = (M.key(), (M.eps_float, M.sig, M.power), ids, _battery(world, ids), {i: world[i].get("moved", 0) for i in ids})
                 ctx.event(step, kind, "%d" % len(ids))
             elif kind == "EXCURSION_END":
                 if exc is None:
                     ctx.event(step, kind, "noop")
                     continue
-                key, (ef, sg, pw), ids, before = exc
+                key, (ef, sg, pw), ids, before, vers = exc
                 exc = None
                 # restore through either setter (a non-power eps only through set_eps)
                 if op.get("via") == "sig" and pw:
@@ -475,7 +526,10 @@ def execute(history, opts=None):
                 after = _battery(world, ids)
                 ctx.count("excursions_completed")
                 bad = []
+                touched = set(i for i in ids if world[i].get("moved", 0) != vers[i])
                 for (n1, r1), (n2, r2) in zip(before, after):
+                    if touched & set(n1.split(":", 1)[1].split(",")):
+                        continue  # the object itself was moved during the excursion
                     ctx.count("J4_checks")
                     if disc(r1) != disc(r2) or not same(r1, r2):
                         bad.append((n1, r1, r2))
@@ -585,7 +639,7 @@ def _result(ctx, history):
         "violations": ctx.violations,
         "stats": ctx.stats,
         "detail": ctx.detail,
-        "float_digest": None,
+        "float_digest": ctx.fd.hexdigest() if getattr(ctx, "fd", None) is not None else None,
         "nontrivial": nontrivial,
         "steps": len(ops),
         "shape": ">".join(k[0] + k[-1] for k in kinds),
